@@ -21,7 +21,11 @@ EXPLANATION = (
     "cached-property cache collected over the whole MRO, and no expression class overrides the pickling protocol or switches the "
     "cache off; R07.3 every custom __dask_tokenize__ returns the cached self._determ_token and assigns it on every path first; "
     "R07.4 (= R23.6) lazily derived seed containers travel with the pickle; R07.5 Array.__getstate__ drops only re-derivable caches "
-    "(never _expr, never the captured optimize-graph policy) and __setstate__ restores the dict unfiltered. Stability of "
+    "(never _expr, never the captured optimize-graph policy) and __setstate__ restores the dict unfiltered; R07.6 REF: the configuration "
+    "keys readable on call-graph paths from a _lower/lower_once override are the reviewed set - lowering results are memoised by node name "
+    "for the whole process, so such a read makes the optimized graph keys of a program depend on what was lowered before (two such reads "
+    "are genuine on today's tree and are listed as known findings); R07.7 every Reduction is constructed with its split_every operand "
+    "already normalised, so the reduction-tree fan-in is part of the name rather than read from configuration at lowering. Stability of "
     "dask.tokenize on user objects across processes and value equality after a round trip are not decided."
 )
 ASSUMPTIONS = [
@@ -578,7 +582,98 @@ def r07_5(ctx):
     return rr
 
 
-RULES = [r07_1, r07_2, r07_3, r07_4, r07_5]
+def r07_6(ctx):
+    from .c09 import lowering_config_rule
+
+    rr = lowering_config_rule(ctx, "R07.6")
+    for f in rr.findings:
+        f.prop = PROP
+    return rr
+
+
+class _SplitEveryEval(Evaluator):
+    """``N``: the value came out of _normalize_split_every(...); ``RAW``: anything else (the raw parameter, None, a literal)."""
+
+    def name(self, n, st):
+        return st.get(n.id, frozenset({"RAW"}))
+
+    def attribute(self, n, st):
+        return frozenset({"RAW"})
+
+    def call(self, n, st):
+        if (dotted(n.func) or "").rsplit(".", 1)[-1] == "_normalize_split_every":
+            return frozenset({"N"})
+        return frozenset({"RAW"})
+
+    def ev(self, e, st):
+        if isinstance(e, ast.Constant):
+            return frozenset({"RAW"})
+        return super().ev(e, st)
+
+
+def r07_7(ctx):
+    rr = RuleResult("R07.7", "WHO", "every construction of a Reduction passes _normalize_split_every(...) as its split_every operand (planner defaults that shape the graph are resolved into the name at construction)", min_instances=1)
+    repo = ctx.repo
+    red = repo.find_class("Reduction")
+    from ..namedeps import params_of
+
+    P = params_of(repo, red)
+    need("split_every" in P, "Reduction no longer has a split_every operand")
+    idx = P.index("split_every")
+    fam = {c.fq for c in repo.subclasses(red)}
+    from ..cfg import build_index
+
+    for m in repo.units:
+        for f in m.functions.values():
+            cls_params = set()
+            a = f.node.args
+            pos = a.posonlyargs + a.args
+            for prm, d in list(zip(reversed(pos), reversed(a.defaults))) + [(k, d) for k, d in zip(a.kwonlyargs, a.kw_defaults) if d is not None]:
+                r = repo.resolve_expr(d, m, f) if isinstance(d, (ast.Name, ast.Attribute)) else None
+                if r and r[0] == "class" and r[1].fq in fam:
+                    cls_params.add(prm.arg)
+            flow = None
+            for n in body_walk(f.node):
+                if not isinstance(n, ast.Call):
+                    continue
+                hit = False
+                if isinstance(n.func, ast.Name) and n.func.id in cls_params:
+                    hit = True
+                else:
+                    r = repo.resolve_expr(n.func, m, f) if isinstance(n.func, (ast.Name, ast.Attribute)) else None
+                    hit = bool(r and r[0] == "class" and r[1].fq in fam)
+                if not hit:
+                    continue
+                arg = None
+                if len(n.args) > idx and not any(isinstance(x, ast.Starred) for x in n.args[: idx + 1]):
+                    arg = n.args[idx]
+                for k in n.keywords:
+                    if k.arg == "split_every":
+                        arg = k.value
+                cst = f"{f.construct}::{unparse(n.func)}(...).split_every"
+                if arg is None:
+                    rr.inst(cst, argument=None)
+                    if any(isinstance(x, ast.Starred) for x in n.args):
+                        rr.exempt(cst, "rebuild from existing operands (*operands): no new operand enters")
+                        continue
+                    ctx.finding(rr, cst, "this Reduction construction leaves split_every at its None default: the tree fan-in is then resolved from configuration at lowering time, and the name-keyed lowering cache serves it to the same program built under another setting", func=f, node=n)
+                    continue
+                if flow is None:
+                    flow = TagFlow(f.node, _SplitEveryEval(), cfg=cfg_of(ctx, f))
+                stmt = build_index(flow.cfg).get(id(n))
+                tags = flow.evr.ev(arg, flow.state_at(stmt) if stmt is not None else {})
+                rr.inst(cst, argument=unparse(arg)[:80], tags=sorted(tags))
+                if tags != {"N"}:
+                    ctx.finding(
+                        rr, cst,
+                        f"the split_every operand {unparse(arg)[:80]!r} is not always the result of _normalize_split_every(...): when it is empty the fan-in is read from "
+                        f"configuration while lowering, is not part of the node name, and the process-wide lowering cache serves the first-lowered tree to later builds under other settings",
+                        func=f, node=n,
+                    )
+    return rr
+
+
+RULES = [r07_1, r07_2, r07_3, r07_4, r07_5, r07_6, r07_7]
 
 LEVEL_TEXT = (
     "Static decision of the naming-determinism discipline: a flow-sensitive taint analysis over the statement CFG of every "
